@@ -1,6 +1,7 @@
 package scen
 
 import (
+	"bytes"
 	"crypto/tls"
 	"crypto/x509"
 	"encoding/base64"
@@ -9,6 +10,7 @@ import (
 	"net/rpc"
 	"os"
 	"strings"
+	"sync/atomic"
 	"time"
 
 	"context"
@@ -187,6 +189,14 @@ func init() {
 				case "badhandshake": // a program that is not a plugin: prints a usage text and keeps running
 					o.badLines = "usage: tool [flags]\n  -h  help\n  -v  version\n"
 				}
+				if p["sink"] == "blocked" && i == 0 {
+					// the plugin prints something, and the application's SyncStdout writer cannot take it before Kill has returned
+					// (the application calls Kill while holding the lock its sink takes, or stopped draining a pipe)
+					bw := &blockedWriter{release: make(chan struct{})}
+					x.Put("sink", bw)
+					o.syncOut = bw
+					o.pStdout = bytes.NewReader(pattern(3, 300))
+				}
 				done := false
 				o.onExit = func() { done = true }
 				lc := newLive(x, o)
@@ -260,6 +270,10 @@ func init() {
 		Check: func(x *vs.Exec, p explore.Params) {
 			plugin.VResetManaged()
 			desc := fmt.Sprintf("proto=%s plugin=%s pattern=%s", p["proto"], p["beh"], p["pat"])
+			if bw, ok := x.Data["sink"].(*blockedWriter); ok {
+				desc += " SyncStdout-writer-blocked-until-after-Kill"
+				defer close(bw.release)
+			}
 			d, _ := x.Data["d"].(*done)
 			if d == nil {
 				if len(x.Violations()) == 0 {
@@ -341,6 +355,16 @@ func init() {
 		},
 		Instances: func(tier string) []explore.Params {
 			var out []explore.Params
+			if tier == "sink" {
+				for _, proto := range []string{"netrpc", "grpc", "grpcmux"} {
+					for _, b := range []string{"exit0", "exit1000", "ignore", "crashed"} {
+						for _, pt := range []string{"one", "cleanup"} {
+							out = append(out, explore.Params{"proto": proto, "beh": b, "pat": pt, "sink": "blocked"})
+						}
+					}
+				}
+				return out
+			}
 			behs := []string{"exit0", "exit1000", "exit1900", "ignore", "frozen", "crashed", "nohandshake", "badhandshake", "busy", "busy-ignore"}
 			for _, proto := range []string{"netrpc", "grpc", "grpcmux"} {
 				for _, b := range behs {
@@ -358,4 +382,16 @@ func init() {
 			return out
 		},
 	})
+}
+
+// blockedWriter is an application's sync writer that cannot take anything until it is released.
+type blockedWriter struct {
+	release chan struct{}
+	got     atomic.Int64
+}
+
+func (b *blockedWriter) Write(p []byte) (int, error) {
+	<-b.release
+	b.got.Add(int64(len(p)))
+	return len(p), nil
 }
